@@ -172,11 +172,12 @@ TExpr == /\ IsEvent("expr") /\ pc \in {"min", "trie2"} /\ Ev.r = run.r
          /\ l' = l + 1 /\ cnt' = Bump({"expr"})
          /\ UNCHANGED <<G, tcs, memo>>
 
-(* the self-check only exists when both anchors are disabled *)
+(* the self-check ("does a search of every test case return the whole test case?") is run by  *)
+(* the code when the end anchor is disabled; Level 1 accepts it for any settings            *)
 TSelfCheck == /\ IsEvent("selfcheck") /\ Ev.r = run.r
               /\ \/ (pc = "expr" /\ Ev.stage = 1)
                  \/ (pc = "expr2" /\ Ev.stage = 2)
-              /\ run.cfg.nostart /\ run.cfg.noend /\ ~Ev.ok
+              /\ ~Ev.ok
               /\ run' = [run EXCEPT !.sc1 = "failed"]
               /\ pc' = IF pc = "expr" THEN "sc1" ELSE "sc2"
               /\ l' = l + 1 /\ cnt' = Bump({"selfcheck-failed"})
